@@ -62,6 +62,10 @@ func (r *baseRouter) ResultName() string { return r.resultName }
 
 // EnumerateTemplates enumerates all expressions on this object and its children
 func (r *baseRouter) EnumerateTemplates(localization flows.Localization, include func(i18n.Language, string)) {
+	// a dial wait evaluates its phone number when the wait begins
+	if dial, isDial := r.wait.(*waits.DialWait); isDial {
+		include(i18n.NilLanguage, dial.Phone())
+	}
 }
 
 // EnumerateDependencies enumerates all dependencies on this object
